@@ -25,7 +25,7 @@ structure St where
   returned : Bool := false
   timers : Nat := 0                   -- hedge-delay timers that have fired
   cancelled : List Nat := []          -- attempts cancelled by the coordinator on return
-deriving Repr
+deriving Repr, DecidableEq
 
 inductive Act
   | launch
